@@ -20,18 +20,21 @@ SKIPPED: list = []
 
 def run_gen(spec: dict, trace_path: Path, *, kill_at: int | None = None, shim_kill: int | None = None,
             shim_log: Path | None = None, watch: str | None = None, timeout: int = 900,
-            n_devices: int = 1, maxarr: int = 0, kill_after: float | None = None):
+            n_devices: int = 1, maxarr: int = 0, kill_after: float | None = None, fs_delay_us: int = 0):
     """One OS process generation.  Returns (returncode, stderr tail)."""
     spec_path = trace_path.with_suffix(".spec.json")
     spec_path.write_text(json.dumps(spec))
     extra = {"MDPAX_VERIF_TRACE": str(trace_path), "MDPAX_VERIF_MAXARR": str(maxarr)}
     if kill_at is not None:
         extra["MDPAX_VERIF_KILL_AT"] = str(kill_at)
-    if shim_kill is not None or shim_log is not None:
+    if fs_delay_us:
+        extra["FI_DELAY_US"] = str(fs_delay_us)
+    if shim_kill is not None or shim_log is not None or fs_delay_us:
         extra["LD_PRELOAD"] = str(SHIM)
         extra["FI_WATCH"] = watch or ""
         extra["FI_LOG"] = str(shim_log) if shim_log else ""
         extra["FI_KILL_AT"] = str(shim_kill if shim_kill is not None else 0)
+        extra.setdefault("FI_WATCH", watch or "")
     cmd = [C.PY, "-m", "harness.workers.ckpt_driver", str(spec_path)]
     if kill_after is not None:
         # wall-clock kill: SIGKILL once the first checkpoint activity is visible plus a seeded delay
@@ -258,7 +261,7 @@ def tree_digest(d):
     return h.hexdigest()[:16]
 
 
-BLANK = {"e": "", "convknown": True, "pdig": "none", "iter": 0, "itag": 0, "vtag": -3, "gtag": -3, "htag": -3, "ptag": -3, "step": 0, "k": 0,
+BLANK = {"e": "", "inflight": False, "convknown": True, "pdig": "none", "iter": 0, "itag": 0, "vtag": -3, "gtag": -3, "htag": -3, "ptag": -3, "step": 0, "k": 0,
          "conv": False, "atend": False, "final": False, "dir": 1, "fin": [], "tmp": [], "cfg": False,
          "exists": False, "quiescent": False, "postmortem": False, "unchanged": True, "killed": False,
          "req": 0, "route": "", "cfgeq": True, "hidxok": True, "dtypeok": True, "exc": "", "src": 1,
@@ -283,6 +286,7 @@ def build_trace(sc: dict, gens: list, ref: Reference):
         sweeps_in_call, k_call, conv_in_call = 0, 0, False
         first_listing = True
         waited = False
+        pending = False      # an asynchronous save may still be in flight in THIS process
         op_restore = next((o for o in g["ops"] if o["op"] in ("restore", "load")), None)
         for idx, ev in enumerate(events):
             st = ev.get("state") or {}
@@ -295,8 +299,7 @@ def build_trace(sc: dict, gens: list, ref: Reference):
                             "pdig": sha_of(st.get("policy")) or "none"})
             if name == "x_new":
                 rec["e"] = "new"
-                if orig_cfg is None:
-                    orig_cfg = norm_config(ev.get("config"))
+                orig_cfg = norm_config(ev.get("config"))
             elif name == "solve_begin":
                 rec["e"], rec["k"] = "begin", ev["max_iterations"]
                 sweeps_in_call, k_call, conv_in_call = 0, ev["max_iterations"], False
@@ -311,6 +314,7 @@ def build_trace(sc: dict, gens: list, ref: Reference):
             elif name == "converged":
                 continue
             elif name == "save_call":
+                pending = bool(sc["isasync"])
                 rec["e"], rec["step"] = "save_call", ev["step"]
                 rec["atend"] = conv_in_call or sweeps_in_call >= k_call
                 # a periodic save that coincides with the end of the call is followed by the final save
@@ -326,6 +330,7 @@ def build_trace(sc: dict, gens: list, ref: Reference):
             elif name == "x_waited":
                 rec["e"] = "waited"
                 waited = True
+                pending = False
             elif name == "x_listing":
                 rec["e"] = "listing"
                 rec["dir"] = dirs.get(ev["dir"], 1)
@@ -337,6 +342,7 @@ def build_trace(sc: dict, gens: list, ref: Reference):
                     rec["unchanged"] = ev["unchanged"]
             elif name == "x_restore_ok":
                 rec["e"] = "restore_ok"
+                rec["inflight"] = pending
                 rec["req"] = ev.get("req") or 0
                 rec["route"] = "restore" if ev.get("config") else "load"
                 rec["cfgeq"] = (norm_config(ev.get("config")) == orig_cfg) if ev.get("config") else True
@@ -415,7 +421,7 @@ def run_scenario(sc: dict, workdir: Path):
         rc, err = run_gen(spec, tr, kill_at=g.get("kill_at"), shim_kill=g.get("shim_kill"),
                           shim_log=(base / f"gen{gi}.shim") if g.get("shim_kill") is not None or g.get("shim_log") or sc.get("shim_log") else None,
                           watch=A, n_devices=g.get("n_devices", 1), maxarr=100000 if sc.get("rtol") else 0,
-                          kill_after=g.get("kill_after"))
+                          kill_after=g.get("kill_after"), fs_delay_us=sc.get("fs_delay_us", 0))
         events = read_events(tr)
         killed = rc == -9
         if rc not in (0, -9):
